@@ -204,6 +204,35 @@ func vfSNCases() []vfSNCase {
 			}
 			vfSNCheckStopped(o, sys, "system with pending outbound retries")
 		}},
+		{"Stop with a timeout far below the remaining retry budget of two unreachable peers", func(o *vfFaultOut) {
+			// default reconnect limit: the budget per unreachable peer is well above 10 s, and the peers are flushed one
+			// after the other. Stop must not sit out those budgets: a Stop(6s) that succeeds shows (logically, whatever the
+			// machine's speed) that shutdown gave the pending deliveries up instead of waiting for their retries.
+			addr := vfFreeAddr()
+			sys := NewSystem(quiet, vivid.WithActorSystemRemoting(addr))
+			if err := sys.Start(); err != nil {
+				o.inc = err.Error()
+				return
+			}
+			for p := 0; p < 2; p++ {
+				dead, _ := sys.CreateRef(vfFreeAddr(), "/sink")
+				for q := 1; q <= 5; q++ {
+					sys.Tell(dead, vfNewNetMsg(1+p, q, 8, false))
+				}
+			}
+			time.Sleep(300 * time.Millisecond) // inside the backoff of the first messages
+			t0 := time.Now()
+			err, ret := vfSNStop(sys, 6*time.Second)
+			if !ret {
+				o.add("c07-hang", "Stop", "Stop(6s) during outbound retries did not return within 36 s")
+				return
+			}
+			if err != nil {
+				o.add("c07-stop-error", "Stop(short)", "Stop(6s) with deliveries to two unreachable peers pending returned %v after %v (the retry budget of the pending deliveries must not be waited for)", err, time.Since(t0).Round(time.Millisecond))
+				return
+			}
+			vfSNCheckStopped(o, sys, "system with pending outbound retries (short Stop)")
+		}},
 		{"cancelling the context of a connected system has the effect of Stop", func(o *vfFaultOut) {
 			addrA, addrB := vfFreeAddr(), vfFreeAddr()
 			ctx, cancel := context.WithCancel(context.Background())
@@ -325,7 +354,7 @@ func vfStartNodeProbe(addr string) (int, error) {
 }
 
 func TestVerif_startstopnet(t *testing.T) {
-	R := verifrt.NewReport("startstopnet", "real time, systems with remoting on loopback: Start / populate / Stop without a peer (and the address can be bound again at once); two connected systems with traffic in both directions stopped one after the other; Stop while deliveries to an unreachable peer are being retried; cancelling the context of a connected system; three concurrent Stops plus a cancel. Oracle (logical observations only): Stop returns nil once and within its timeout, later Start/Stop return the already-stopped error promptly, nothing stays registered, and once all systems of the case have stopped no goroutine with a frame of the library or of its scheduler is left (polled for up to 30 s). non-trivial+distinct = cases that ran to their end with at least one system stopped")
+	R := verifrt.NewReport("startstopnet", "real time, systems with remoting on loopback: Start / populate / Stop without a peer (and the address can be bound again at once); two connected systems with traffic in both directions stopped one after the other; Stop while deliveries to an unreachable peer are being retried (Stop(20s) within a small retry budget, and Stop(6s) far below the default retry budget of two unreachable peers: shutdown must give pending deliveries up, not wait for their retries); cancelling the context of a connected system; three concurrent Stops plus a cancel. Oracle (logical observations only): Stop returns nil once and within its timeout, later Start/Stop return the already-stopped error promptly, nothing stays registered, and once all systems of the case have stopped no goroutine with a frame of the library or of its scheduler is left (polled for up to 30 s). non-trivial+distinct = cases that ran to their end with at least one system stopped")
 	defer R.Flush()
 	cases := vfSNCases()
 	reps := 1
